@@ -1,5 +1,10 @@
 //! C02 — a certificate says exactly what its parameters say.
 
+use std::str::FromStr;
+
+use proptest::prelude::*;
+use serde::{Deserialize, Serialize};
+
 use crate::gen::{self, CertGenOpts};
 use crate::keys;
 use crate::model;
@@ -123,10 +128,206 @@ pub fn prefix_sweep_cases() -> Vec<CertCase> {
 	v
 }
 
+// ---------------------------------------------------------------------------------------------
+// Parameters built through the convenience constructors instead of the public fields.
+
+#[derive(Clone, Debug, Serialize, Deserialize, PartialEq, Eq, Hash)]
+pub enum ConvSerial {
+	Unset,
+	U64(u64),
+	Bytes(Hex),
+}
+
+#[derive(Clone, Debug, Serialize, Deserialize, PartialEq, Eq, Hash)]
+pub struct ConvCase {
+	/// given to `CertificateParams::new` / `generate_simple_self_signed`
+	pub names: Vec<String>,
+	pub serial: ConvSerial,
+	/// given one by one to `insert_extended_key_usage`
+	pub ekus: Vec<EkuSpec>,
+	/// pushed as (`DnType::from_oid(oid)`, text as `&str` or `String`)
+	pub dn: Vec<(Vec<u64>, String, bool)>,
+	/// `date_time_ymd` arguments
+	pub not_before: (i32, u8, u8),
+	pub not_after: (i32, u8, u8),
+	pub key: KeySpec,
+	/// go through `generate_simple_self_signed` (crypto builds; nothing but the names is used then)
+	pub simple: bool,
+}
+
+fn conv_name() -> BoxedStrategy<String> {
+	prop_oneof![
+		4 => hostname_strategy(),
+		2 => any::<[u8; 4]>().prop_map(|b| format!("{}.{}.{}.{}", b[0], b[1], b[2], b[3])),
+		2 => any::<[u16; 8]>().prop_map(|w| std::net::Ipv6Addr::new(w[0], w[1], w[2], w[3], w[4], w[5], w[6], w[7]).to_string()),
+		3 => prop::sample::select(vec![
+			"::1", "::", "1.2.3.4", "2001:db8::1", "::ffff:10.0.0.1", "::10.0.0.1", "localhost", "1.2.3", "1.2.3.4.5", "256.1.1.1", "01.2.3.4", "1.2.3.04", "0x7f.1", "::g", "1.2.3.4:80", "[::1]",
+			"fe80::1%eth0", "1:2:3:4:5:6:7:8", "1:2:3:4:5:6:7:8:9", "1::2::3", "0:0:0:0:0:0:0:0", "FE80::A", "", " 1.2.3.4", "1.2.3.4 ", "*.example.com", "a",
+		])
+		.prop_map(|s| s.to_string()),
+		1 => prop::sample::select(vec!["ex\u{e4}mple.com", "\u{65e5}\u{672c}.jp", "a\u{80}", "\u{ff11}.2.3.4"]).prop_map(|s| s.to_string()),
+	]
+	.boxed()
+}
+
+fn ymd() -> impl Strategy<Value = (i32, u8, u8)> {
+	(prop_oneof![3 => 1950i32..2050, 2 => 1i32..9999, 1 => prop::sample::select(vec![1, 1949, 1950, 2049, 2050, 9999])], 1u8..=12, 1u8..=28)
+}
+
+fn conv_case() -> BoxedStrategy<ConvCase> {
+	let std_oid = prop::sample::select(vec![vec![2u64, 5, 4, 6], vec![2, 5, 4, 7], vec![2, 5, 4, 8], vec![2, 5, 4, 10], vec![2, 5, 4, 11], vec![2, 5, 4, 3]]);
+	(
+		proptest::collection::vec(conv_name(), 0..6),
+		prop_oneof![
+			2 => Just(ConvSerial::Unset),
+			2 => prop_oneof![any::<u64>(), prop::sample::select(vec![0u64, 1, 127, 128, 255, 256, u64::MAX, 1 << 63, (1 << 63) - 1, 1 << 56])].prop_map(ConvSerial::U64),
+			1 => gen::int_bytes(24).prop_map(ConvSerial::Bytes),
+		],
+		proptest::collection::vec(gen::eku(true, false), 0..5),
+		proptest::collection::vec((prop_oneof![3 => std_oid, 1 => gen::moderate_oid()], "[ -~]{0,12}", any::<bool>()), 0..6),
+		ymd(),
+		ymd(),
+		gen::key_spec(),
+		prop::bool::weighted(0.2),
+	)
+		.prop_map(|(names, serial, ekus, dn, not_before, not_after, key, simple)| {
+			// repeat some purposes: insert_extended_key_usage must keep one
+			let mut e2 = ekus.clone();
+			e2.extend(ekus.iter().step_by(2).cloned());
+			ConvCase {
+				names,
+				serial: if cfg!(feature = "crypto") || !matches!(serial, ConvSerial::Unset) { serial } else { ConvSerial::U64(7) },
+				ekus: e2,
+				dn,
+				not_before,
+				not_after,
+				key,
+				simple: simple && cfg!(feature = "crypto"),
+			}
+		})
+		.boxed()
+}
+
+fn ymd_unix(d: (i32, u8, u8)) -> i64 {
+	crate::der::days_from_civil(d.0 as i64, d.1 as i64, d.2 as i64) * 86400
+}
+
+pub fn check_conv(c: &ConvCase, info: &mut CaseInfo) -> Result<(), String> {
+	// what the documentation of `new` promises: IP literals become iPAddress names, the rest dNSNames
+	let mut want_sans = Vec::new();
+	let mut refused = false;
+	for n in &c.names {
+		match std::net::IpAddr::from_str(n) {
+			Ok(std::net::IpAddr::V4(a)) => want_sans.push(SanSpec::Ip(Hex(a.octets().to_vec()))),
+			Ok(std::net::IpAddr::V6(a)) => want_sans.push(SanSpec::Ip(Hex(a.octets().to_vec()))),
+			Err(_) if n.is_ascii() => want_sans.push(SanSpec::Dns(n.clone())),
+			Err(_) => refused = true,
+		}
+	}
+	info.nontrivial = c.names.len() >= 2 || !c.dn.is_empty();
+	info.class(format!("names:{}", c.names.len().min(3)));
+	if want_sans.iter().any(|s| matches!(s, SanSpec::Ip(_))) {
+		info.class("ip-literal");
+	}
+	let made = no_panic(|| rcgen::CertificateParams::new(c.names.clone())).map_err(|p| format!("CertificateParams::new: {p}"))?;
+	let mut params = match (made, refused) {
+		(Err(_), true) => {
+			info.class("refused:non-ascii-name");
+			#[cfg(feature = "crypto")]
+			if rcgen::generate_simple_self_signed(c.names.clone()).is_ok() {
+				return Err("generate_simple_self_signed accepts a name CertificateParams::new refuses".into());
+			}
+			return Ok(());
+		},
+		(Ok(_), true) => return Err(format!("CertificateParams::new accepts a non-ASCII, non-IP name among {:?}", c.names)),
+		(Err(e), false) => return Err(format!("CertificateParams::new refuses the names {:?}: {e}", c.names)),
+		(Ok(p), false) => p,
+	};
+	let mut spec = CertSpec::minimal();
+	spec.sans = want_sans;
+	spec.dn = DnSpec(vec![(DnTypeSpec::CommonName, DnValueSpec::new(StrKind::Utf8, "rcgen self signed cert"))]);
+	spec.not_before = TimeSpec { unix: ymd_unix((1975, 1, 1)), nanos: 0, offset: 0 };
+	spec.not_after = TimeSpec { unix: ymd_unix((4096, 1, 1)), nanos: 0, offset: 0 };
+
+	#[cfg(feature = "crypto")]
+	if c.simple {
+		info.class("generate_simple_self_signed");
+		let ck = rcgen::generate_simple_self_signed(c.names.clone()).map_err(|e| format!("generate_simple_self_signed refuses {:?}: {e}", c.names))?;
+		let (d, _) = decode_cert(ck.cert.der())?;
+		let spki = ck.key_pair.public_key_der();
+		// the returned key pair is the certificate's key: it must be able to sign for it
+		let probe = rcgen::CertificateParams::default().serialize_request(&ck.key_pair).map_err(|e| e.to_string())?;
+		let (pd, _) = decode_csr(probe.der())?;
+		if pd.spki.raw != d.spki.raw {
+			return Err("generate_simple_self_signed returns a key pair that is not the certificate's".into());
+		}
+		spec.serial = None;
+		spec.kid = KidSpec::Sha256;
+		let issuer = model::IssuerInfo { dn: &spec.dn, kid: &spec.kid, spki: &spki };
+		model::check_cert(&d, &spec, &spki, &issuer)?;
+		return Ok(());
+	}
+
+	// the remaining convenience constructors
+	match &c.serial {
+		ConvSerial::Unset => spec.serial = None,
+		ConvSerial::U64(u) => {
+			params.serial_number = Some(rcgen::SerialNumber::from(*u));
+			spec.serial = Some(Hex(u.to_be_bytes().to_vec()));
+			info.class("serial:from-u64");
+		},
+		ConvSerial::Bytes(b) => {
+			params.serial_number = Some(rcgen::SerialNumber::from(b.0.clone()));
+			spec.serial = Some(b.clone());
+			info.class("serial:from-vec");
+		},
+	}
+	let mut want_ekus: Vec<EkuSpec> = Vec::new();
+	for e in &c.ekus {
+		params.insert_extended_key_usage(crate::mk::eku(e));
+		if !want_ekus.iter().any(|w| w.oid() == e.oid()) {
+			want_ekus.push(e.clone());
+		}
+	}
+	spec.ekus = want_ekus;
+	for (oid, text, owned) in &c.dn {
+		let ty = rcgen::DnType::from_oid(oid);
+		if *owned {
+			params.distinguished_name.push(ty, text.clone());
+		} else {
+			params.distinguished_name.push(ty, text.as_str());
+		}
+		let t = DnTypeSpec::Custom(oid.clone());
+		let v = DnValueSpec::new(StrKind::Utf8, text.clone());
+		if let Some(e) = spec.dn.0.iter_mut().find(|(t2, _)| t2.oid() == *oid) {
+			e.1 = v;
+		} else {
+			spec.dn.0.push((t, v));
+		}
+	}
+	params.not_before = rcgen::date_time_ymd(c.not_before.0, c.not_before.1, c.not_before.2);
+	params.not_after = rcgen::date_time_ymd(c.not_after.0, c.not_after.1, c.not_after.2);
+	spec.not_before = TimeSpec { unix: ymd_unix(c.not_before), nanos: 0, offset: 0 };
+	spec.not_after = TimeSpec { unix: ymd_unix(c.not_after), nanos: 0, offset: 0 };
+	if !cfg!(feature = "crypto") {
+		params.key_identifier_method = rcgen::KeyIdMethod::PreSpecified(vec![1, 2, 3, 4]);
+	}
+	let key = keys::make_key(&c.key)?;
+	let input = params.clone();
+	let cert = params.self_signed(&key).map_err(|e| format!("self_signed refuses parameters built with the convenience constructors: {e}"))?;
+	if cert.params() != &input {
+		return Err("Certificate::params() differs from the parameters that were passed in".into());
+	}
+	let (d, _) = decode_cert(cert.der())?;
+	let spki = &keys::fixture(&c.key).spki;
+	let issuer = model::IssuerInfo { dn: &spec.dn, kid: &spec.kid, spki };
+	model::check_cert(&d, &spec, spki, &issuer)
+}
+
 pub fn def() -> PropertyDef {
 	PropertyDef {
 		id: "C02",
-		rule: "Spec (every CertificateParams field, sparsity modes nothing/exactly-one/random-subset/everything, 3 public-key sources, self- and issuer-signed, all key algorithms) -> rcgen -> harness RFC 5280 decoder -> compared with the reference model; sweeps: 511 key-usage subsets (alone and with a SAN), 256 path lengths, 256 prefixes x 3 constructors x v4/v6. Non-trivial = at least one extension-bearing field set; distinct by hash of the Spec JSON.",
+		rule: "Spec (every CertificateParams field, sparsity modes nothing/exactly-one/random-subset/everything, 3 public-key sources, self- and issuer-signed, all key algorithms) -> rcgen -> harness RFC 5280 decoder -> compared with the reference model; sweeps: 511 key-usage subsets (alone and with a SAN), 256 path lengths, 256 prefixes x 3 constructors x v4/v6. Sub-check constructors: parameters built through the convenience API instead of the public fields (CertificateParams::new and generate_simple_self_signed with host names, IP literals and look-alikes; SerialNumber::from(u64 / Vec<u8>); insert_extended_key_usage with repeats; DnType::from_oid with &str / String values pushed onto the default name; date_time_ymd) against the same model. Non-trivial = at least one extension-bearing field set (constructors: two or more names or a pushed attribute); distinct by hash of the Spec JSON.",
 		assumptions: vec![
 			"the harness DER/X.509 decoder (der.rs, x509.rs) is correct; it shares no code with rcgen/yasna/x509-parser and is unit- and differentially tested",
 			"SHA-2 from OpenSSL and OpenSSL's SubjectPublicKeyInfo encoding of the fixture keys are the reference for key identifiers and SPKI bytes",
@@ -136,6 +337,7 @@ pub fn def() -> PropertyDef {
 			sweep_sub("ku-sweep", |_| ku_sweep_cases(), check_case),
 			sweep_sub("pathlen-sweep", |_| pathlen_sweep_cases(), check_case),
 			sweep_sub("prefix-sweep", |_| prefix_sweep_cases(), check_case),
+			prop_sub("constructors", 24_000, 300_000, conv_case, check_conv),
 			// oracle self-test: the decoder against OpenSSL's own encoder (failures are INTERNAL, exit 2)
 			crate::props::selftest::sub(),
 		],
